@@ -341,6 +341,7 @@ package mcp
 
 //@ global-invariant ErrEventsPurged != nil
 //@ global-invariant ErrConnectionClosed != nil
+//@ global-invariant ErrSessionMissing != nil
 
 // After, step 1 (under the lock): decide between purged / unknown / the exact suffix, and copy it.
 // All index arithmetic in this contract is mathematical (unbounded); the code's is 64-bit.
@@ -1205,6 +1206,25 @@ package mcp
 //@   ensures @an-unresumable-call-stream-that-ends-fails-the-call !result.2 && result.0 == "" && forCall != nil ==> calls(synthetic) >= 1
 //@   ensures @closed-paths-hand-back-nothing result.2 ==> result.0 == "" && result.1 == 0
 
+// checkResponse classifies the HTTP answer to a client request: success exactly for 2xx; the transient statuses (429,
+// 500, 502, 503, 504) and a JSON-RPC error carried by a non-2xx body are per-request rejections (ErrRejected: the
+// connection stays usable); a 404 that is not such a rejection means the session is gone (ErrSessionMissing, so no
+// DELETE is sent for it); on every failure the body is closed, on success it is handed on open.
+//@ pred transientStatus(c int) := c == 500 || c == 502 || c == 503 || c == 504 || c == 429
+//@ func isTransientHTTPStatus [C09]
+//@   pure
+//@   ensures @exactly-the-transient-statuses result <==> transientStatus(statusCode)
+//@ func (*streamableClientConn).checkResponse [C09]
+//@   track Close as closeBody
+//@   ghost status := old(resp.StatusCode)
+//@   requires c != nil && resp != nil
+//@   assume resp.Body != nil   // net/http: the body of a client response is never nil
+//@   assume noprotocolerrorbody != "1"   // default debug setting
+//@   modifies *
+//@   ensures @success-exactly-for-2xx result == nil <==> (status >= 200 && status < 300)
+//@   ensures @transient-statuses-do-not-break-the-connection transientStatus(status) ==> result != nil && errIs(result, jsonrpc2.ErrRejected)
+//@   ensures @a-404-that-is-not-a-rejection-means-the-session-is-gone status == 404 && !errIs(result, jsonrpc2.ErrRejected) ==> result != nil && errIs(result, ErrSessionMissing)
+//@   ensures @the-body-is-closed-exactly-on-failure calls(closeBody) == (result != nil ? 1 : 0)
 // connectSSE: every reconnect request names the resume cursor it was given in Last-Event-ID; the number of requests
 // is bounded by the retry budget; a response is handed back exactly when there is no error.
 // (HTTP header names are case-insensitive; these two differ.)
